@@ -125,7 +125,8 @@ def run_sharded(hbin, dbin, mode, seed, total, extra=None, shards=12):
 def placement_hist(cases):
     h = {}
     for c in cases:
-        h[c["class"]] = h.get(c["class"], 0) + 1
+        k = c["class"].split("@", 1)[0]
+        h[k] = h.get(k, 0) + 1
     return h
 
 
@@ -214,7 +215,12 @@ def replay_case(ctx, obj, is_bad):
     # reuse the harness through a one-off Go program is overkill: regenerate the shard that contained the case
     print(json.dumps({"replay_of": rp}))
     # single-case mode: cronh one -expr .. -loc .. -prev ..
-    rec = _run_shard((hbin, dbin, ["one", "-expr", rp.get("expr", ""), "-loc", rp.get("loc", "UTC"), "-prev", str(rp.get("prev", 0))]))
+    args = ["one", "-expr", rp.get("expr", ""), "-loc", rp.get("loc", "UTC"), "-prev", str(rp.get("prev", 0))]
+    cls = str((obj.get("case") or {}).get("class", ""))
+    if cls.startswith("twin-of-") and "@" in cls:
+        # the case was the second call on one trigger object: repeat the first call before it
+        args += ["-has-before", "-before", cls.rsplit("@", 1)[1]]
+    rec = _run_shard((hbin, dbin, args))
     bad = [c for c in rec["cases"] if is_bad(c)]
     for c in rec["cases"]:
         print(json.dumps(case_view(c)))
